@@ -145,10 +145,10 @@ static int boundvalue(int c, const struct view *v, unsigned salt, size_t *out)
 }
 
 /* index classes for the at() op */
-enum { I_0, I_IN, I_LENM1, I_LEN, I_LEN1, I_REMM1, I_REM, I_MAX, I_MAXM1, I_MAXOFF1, I_MAXOFF2, I_NCLS };
+enum { I_0, I_IN, I_LENM1, I_LEN, I_LEN1, I_REMM1, I_REM, I_MAX, I_MAXM1, I_MAXOFF1, I_MAXOFF2, I_MULWRAP, I_NCLS };
 static const char *const iname[I_NCLS] = {
     "0", "in-range", "size-1", "size", "size+1", "bufend-1", "bufend", "size_max", "size_max-1",
-    "size_max-off+1", "size_max-off+2"
+    "size_max-off+1", "size_max-off+2", "mulwrap+in-range"
 };
 static int indexvalue(int c, const struct view *v, unsigned salt, size_t *out)
 {
@@ -166,6 +166,8 @@ static int indexvalue(int c, const struct view *v, unsigned salt, size_t *out)
     case I_MAXM1: *out = SIZE_MAX - 1; break;
     case I_MAXOFF1: *out = SIZE_MAX - off + 1; break;
     case I_MAXOFF2: *out = SIZE_MAX - off + 2; break;
+    /* an index whose product with the element size wraps to the offset of an element of the view */
+    case I_MULWRAP: if (v->b < 0 || B[v->b].sz < 2) return 0; *out = SIZE_MAX / B[v->b].sz + 1 + (len ? salt % len : 0); break;
     default: return 0;
     }
     return 1;
